@@ -33,14 +33,14 @@ CLAIMED = {
    note="All theorems closed under the global context. Read time-outs, malformed 200 bodies and from_id are outside the modelled alphabet.",
    tech="Coq refinement proof (implementation state machine = specification automaton on all traces) + exhaustive short-trace and random long-trace correspondence"),
  "C18": dict(cat="proof", ref="DESIGN.md §7 C18, Appendix A.6",
-   text="Kernel-checked theorems over ALL schedules (every list of worker steps and caller actions; program order is enforced by the worker's program counter) of a faithful two-thread model of LocalJob/Job/JobStatus/check_cancel: the task is entered at most once and exactly once in every finished job; the status field is RUNNING from the accepted execute until the wrapper's finish; after the task returned the job ends CANCELED iff a cancel action precedes the finish, else SUCCESS, with the task's results, and after an Exception it ends ERROR with the exception's type and message, for every prefix and continuation; no value can be obtained before the finish; a value once obtained is returned unchanged by every later get_results and is converted exactly once; callbacks installed at construction/set_progress_callback change nothing but what they receive (simulation); an unknown keyword makes execute fail before the task starts. Three statements are false of the faithful model and are proved refuted with witnesses that replay on /repo (open findings). The model is tied to /repo on every run by a semaphore-stepped harness task: every interleaving of <= 4 task steps with <= 3 (quick) / 4 (thorough) caller actions, synchronous (actions from the progress callback and from a second thread) and asynchronous, plus sampled schedules and an argument stream; every observation and the private state after every event are compared.",
-   note="All 20 theorems closed under the global context. Granularity: execute, cancel, status, get_results and every JobStatus update are atomic steps; pre-emption inside them, and between the task's return and the wrapper's final status update, is not exercised by the harness (the theorems cover the latter). results_list conversion is not modelled.",
+   text="Kernel-checked theorems over ALL schedules (every list of worker steps and caller actions; program order is enforced by the worker's program counter) of a faithful two-thread model of LocalJob/Job/JobStatus/check_cancel as /repo is now: the task is entered at most once and exactly once in every finished job; the status field and every status query report RUNNING from the accepted execute until the wrapper's finish, for synchronous and asynchronous runs; after the task returned the job ends CANCELED iff a cancel action precedes the finish, else SUCCESS, with the task's results, and after an Exception it ends ERROR with the exception's type and message, for every prefix and continuation; no value can be obtained before the finish; a value once obtained is returned unchanged by every later get_results and is converted exactly once; a callback supplied in any way (construction, set_progress_callback, progress_callback keyword) changes nothing but what it receives (simulation) and the keyword installs it; an unknown keyword makes execute fail before the task starts. One statement is false of the faithful model and is proved refuted with a witness that replays on /repo (open finding: a task ending with a non-Exception BaseException is reported SUCCESS); two repaired defects are kept as historical ..._old_code theorems about the pre-repair code version of the model. The model is tied to /repo on every run by a semaphore-stepped harness task: every interleaving of <= 4 task steps with <= 3 (quick) / 4 (thorough) caller actions, synchronous (actions from the progress callback and from a second thread) and asynchronous, plus sampled schedules and an argument stream; every observation and the private state after every event are compared.",
+   note="All 25 theorems closed under the global context. Granularity: execute, cancel, status, get_results and every JobStatus update are atomic steps; pre-emption inside them, and between the task's return and the wrapper's final status update, is not exercised by the harness (the theorems cover the latter). results_list conversion is not modelled.",
    tech="Coq proof by invariant over all schedules + refutation witnesses + extracted-model differential correspondence with forced interleavings (semaphores, watchdogs, no sleeps)"),
 }
 REASON_HOLD = "model being brought in line with a repair just committed to /repo; not claimed until its check is green again"
 REASON_PENDING = "not yet built in this development (see DESIGN.md §10 for the build order); no check is claimed"
 
-HOLD = {'C18'}   # claimed entries temporarily withheld (model being adapted to a fix in /repo)
+HOLD = set()   # claimed entries temporarily withheld (model being adapted to a fix in /repo)
 
 def main():
     for h in HOLD: CLAIMED.pop(h, None)
